@@ -178,6 +178,25 @@ def run_shard(spec):
             else:
                 runner.count(res, 'open_shapes_rejected')
                 res['nontrivial'].append(runner.case_id('shape', src))
+        # the entry point is a function like any other: called again (by itself, or through another you-function) it returns to its caller
+        for tag, src, args, want in (
+                ('recursive entry point', "empty @is_you(int n) { write('d'); write(n); if (n > 0) { @is_you(n - 1); write('u'); write(n); } else { write('b'); } write(';'); }\n", ['3'],
+                 b'd3d2d1d0b;u1;u2;u3;'),
+                ('entry point called through another you-function', 'int depth = 0;\nempty @again() { depth += 1; if (depth < 3) { @is_you(depth); } write(depth); }\n'
+                 "empty @is_you(int n) { write('e'); write(n); @again(); write('x'); write(n); if (n > 5) { return; } write('.'); }\n", ['9'], b'e9e1e23x2.3x1.3x9'),
+                ('early return in a nested activation', "empty @is_you(int n) { if (n == 0) { write('z'); return; } @is_you(n - 1); write(n); }\n", ['4'], b'z1234')):
+            for word in (2, 3):
+                for unchecked in (False, True):
+                    res['evaluations'] += 1
+                    run = diff.compile_and_run(src, args, word=word, stack=diff.GENEROUS_STACK, unchecked=unchecked, max_steps=MAX_STEPS)
+                    case = diff.case_dict(src, args, word, diff.GENEROUS_STACK, unchecked, gen=tag)
+                    if run.kind != 'ok':
+                        runner.fail(res, 'M-FALL', f'{tag}: {run.kind}: {run.detail}', case)
+                    elif run.outcome.out != want or run.outcome.klass != 'WIN':
+                        runner.fail(res, 'M-FALL', f'{tag}: printed {run.outcome.out!r} ({run.outcome.klass}), expected {want!r}: an activation did not return to its caller', case,
+                                    expected=want.decode(), observed=run.outcome.brief())
+                    else:
+                        runner.count(res, 'entry_point_activations_return')
         # the library routines are functions too: no operand (empty, one element, long; every storage kind) may make one of
         # them run on into the routine that follows it
         from .c03 import LIBRARY_PROGRAMS
